@@ -95,7 +95,8 @@ def scan_v1(lines):
     return out
 
 
-TRANSFORMS = ("blank", "blank_ws", "trail", "comment", "indent2", "indent3", "combo", "comment_ellipsis")
+TRANSFORMS = ("blank", "blank_ws", "trail", "comment", "indent2", "indent3", "combo", "comment_ellipsis", "trail_tab")
+ELLIPSIS_ONLY = re.compile(r"^ +\.\.\.[ \t]*$", re.M)
 _ELLIPSIS_LINE = re.compile(r"^ +\.\.\.")  # what the 2.x pre-parser expands in place
 
 
@@ -139,12 +140,13 @@ def transform(text, ver, tf, rng, dense=False):
                 if nlead:
                     lines[i] = " " * (k * nlead) + ln[nlead:]
                     changed += 1
-        elif t == "trail":
+        elif t in ("trail", "trail_tab"):
+            # trailing TABs are kept apart from trailing spaces (separate mechanism in the 2.x grammar)
             for i, ln in enumerate(lines):
                 if inside[i] or triple[i]:
                     continue
                 if ln.strip() and rng.random() < p:
-                    lines[i] = ln + " " * rng.randint(1, 3)
+                    lines[i] = ln + (" " * rng.randint(1, 3) if t == "trail" else rng.choice(["\t", " \t", "\t "]))
                     changed += 1
         elif t == "comment_ellipsis":
             # kept apart from "comment": text after the `...` shortcut is a separate mechanism
